@@ -343,6 +343,7 @@ impl Deserializable for Instruction {
             }
 
             // ----- debugging --------------------------------------------------------------------
+            OpCode::Breakpoint => Ok(Instruction::Breakpoint),
             OpCode::Debug => {
                 let options = debug::read_options_from(source)?;
                 Ok(Instruction::Debug(options))
